@@ -317,6 +317,10 @@ fn task_running(
             assert_eq!(*w_id, worker_id);
             comm.ask_for_scheduling();
             task.state = TaskRuntimeState::Running { worker_id, rv_id };
+            // A retracting task without a redirect is still in the ready queue
+            task_queues
+                .get_mut(task.resource_rq_id)
+                .remove(task.id, task.priority());
             // We have to call first try_remove_redirection and then insert_sn_task
             // This cannot be done in reverse order because in rare cases
             // we may be in a process of a dummy redirection (from a worker to the same worker).
@@ -562,6 +566,10 @@ fn task_finished(
                     task_id,
                     task.resource_rq_id,
                 );
+                // A retracting task without a redirect is still in the ready queue
+                task_queues
+                    .get_mut(task.resource_rq_id)
+                    .remove(task_id, task.priority());
             }
             TaskRuntimeState::Prefilled { .. }
             | TaskRuntimeState::Waiting { .. }
